@@ -14,8 +14,9 @@ FLAVOURS = {
     # name: (compiler, std, extra flags)
     "unchecked": ("g++", "c++17", ["-O1", "-g", "-DSBEPP_DISABLE_ASSERTS"]),
     "checked": ("g++", "c++17", ["-O1", "-g", "-DSBEPP_ENABLE_ASSERTS_WITH_HANDLER"]),
-    "unchecked_O0": ("g++", "c++17", ["-O0", "-g", "-DSBEPP_DISABLE_ASSERTS"]),
-    "checked_clang20": ("clang++", "c++20", ["-O1", "-g", "-DSBEPP_ENABLE_ASSERTS_WITH_HANDLER"]),
+    # C++20 (bit_cast / ranges / operator<=> paths of sbepp.hpp) and std::byte views, unoptimised
+    "unchecked_O0": ("g++", "c++20", ["-O0", "-g", "-DSBEPP_DISABLE_ASSERTS", "-DWIRE_BYTE=std::byte"]),
+    "checked_clang20": ("clang++", "c++20", ["-O1", "-g", "-DSBEPP_ENABLE_ASSERTS_WITH_HANDLER", "-DWIRE_BYTE=unsigned\ char"]),
     "unchecked_clang20": ("clang++", "c++20", ["-O1", "-g", "-DSBEPP_DISABLE_ASSERTS"]),
 }
 
